@@ -234,6 +234,8 @@ func c18Run(f []string) string {
 		return c18One("time", 3, []string{hs(1), hs(2)}, hs(3))
 	case "zh": // zh fn a1 zone table args: one compiled stage over a history (c18hist.go)
 		return c18RunHist(f)
+	case "zn": // zn fmt zone table zones strs: abbreviations in the text on the table + zone-list model (c18name.go)
+		return c18RunName(f)
 	case "cal": // reference calendar against Go's own (no rare code involved)
 		days, _ := strconv.ParseInt(f[1], 10, 64)
 		t := time.Unix(days*86400, 0).UTC()
@@ -805,6 +807,20 @@ func c18Gen(r *Rand, tier string) []string {
 		}
 	}
 
+	// texts with zone abbreviations, the location as table + zone list (model of Location.lookupName, no oracle)
+	nn := 400
+	if tier == "thorough" {
+		nn = 20000
+	}
+	for i := 0; i < nn; i++ {
+		z := c18Zones[7+r.Intn(23)]
+		if z.ok {
+			if c := c18NameCase(r, z); c != "" {
+				add(c)
+			}
+		}
+	}
+
 	// reference calendar against Go's calendar, no rare code involved
 	nc := 1500
 	if tier == "thorough" {
@@ -1183,6 +1199,9 @@ func c18Stats(cases []string) map[string]int {
 			continue
 		case "zh":
 			c18HistStats(f, st)
+			continue
+		case "zn":
+			st["zn.texts"] += len(UnHexListS(f[5]))
 			continue
 		case "zone", "ztime":
 			if f[0] == "zone" {
